@@ -84,11 +84,12 @@ pub fn write_batch(spec: &BatchSpec) -> Batch {
         format!(", features = [{}]", spec.jvrt_features.iter().map(|f| format!("\"{}\"", f)).collect::<Vec<_>>().join(", "))
     };
     let cargo = format!(
-        "[package]\nname = \"{pkg}\"\nversion = \"0.1.0\"\nedition = \"2021\"\n\n[workspace]\n\n[dependencies]\njoin = {{ path = \"{repo}/join\" }}\njvrt = {{ path = \"{root}/crates/jvrt\"{feats} }}\nfutures = \"0.3\"\ntokio = {{ version = \"1\", features = [\"rt\", \"macros\", \"sync\", \"time\"] }}\n{extra}\n[profile.dev]\ndebug = 0\nopt-level = 0\nincremental = false\n\n[profile.dev.package.\"*\"]\nopt-level = 1\n",
+        "[package]\nname = \"{pkg}\"\nversion = \"0.1.0\"\nedition = \"2021\"\n\n[workspace]\n\n[dependencies]\njoin = {{ path = \"{repo}/join\" }}\njvrt = {{ path = \"{root}/crates/jvrt\"{feats} }}\n{futures_dep}tokio = {{ version = \"1\", features = [\"rt\", \"macros\", \"sync\", \"time\"] }}\n{extra}\n[profile.dev]\ndebug = 0\nopt-level = 0\nincremental = false\n\n[profile.dev.package.\"*\"]\nopt-level = 1\n",
         pkg = spec.pkg,
         repo = repo(),
         root = verif_root().display(),
         feats = feats,
+        futures_dep = if spec.extra_deps.contains("#nofutures") { "" } else { "futures = \"0.3\"\n" },
         extra = spec.extra_deps,
     );
     fs::write(dir.join("Cargo.toml"), cargo).unwrap();
